@@ -121,12 +121,40 @@ fn needs_k(k: usize, near_miss: bool) -> G {
     G { names: vec![nt_name(0), nt_name(1)], start: 0, prods: vec![(0, vec![Sy::N(1), Sy::T(7)]), (1, p1), (1, p2)] }
 }
 
+/// Alternatives with overlapping FIRST sets that are reached through unit-production chains of different lengths
+/// (the fixpoint iteration finishes them in different rounds): NA: C1 | C2 [| C3]; Ci ->* Wi; Wi: words sharing prefixes.
+fn chains(rng: &mut Rng) -> G {
+    let nalt = rng.range(2, 3);
+    let mut names = vec![nt_name(0)];
+    let mut prods: Vec<(usize, Vec<Sy>)> = vec![];
+    let plen = rng.range(1, 2);
+    let prefix: Vec<Sy> = (0..plen).map(|_| Sy::T(5 + rng.below(2) as u16)).collect();
+    for _ in 0..nalt {
+        let chain = rng.range(0, 3);
+        let mut cur = names.len();
+        names.push(nt_name(cur));
+        prods.push((0, vec![Sy::N(cur)]));
+        for _ in 0..chain {
+            let nxt = names.len();
+            names.push(nt_name(nxt));
+            prods.push((cur, vec![Sy::N(nxt)]));
+            cur = nxt;
+        }
+        for _ in 0..rng.range(1, 2) {
+            let mut w = prefix.clone();
+            for _ in 0..rng.range(0, 2) { w.push(Sy::T(5 + rng.below(3) as u16)); }
+            prods.push((cur, w));
+        }
+    }
+    G { names, start: 0, prods }
+}
+
 pub fn run_ff(a: &Args) {
     let mut rng = Rng::new(a.seed ^ ((a.shard as u64) << 32) ^ 0xC06);
     let d = Dials { max_nts: 4, max_terms: 3, max_alts: 3, max_rhs: 3, eps_pct: 20, nt_pct: 50 };
     for i in 0..a.n {
-        let g = random_clean(&mut rng, &d, true);
-        let maxk = if i % 10 == 0 { 4 } else { rng.range(1, 3) };
+        let g = if i % 3 == 1 { chains(&mut rng) } else { random_clean(&mut rng, &d, true) };
+        let maxk = if i % 10 == 0 || i % 3 == 1 { 4 } else { rng.range(1, 3) };
         ff_cases(&g, &mut rng, maxk);
     }
 }
